@@ -64,6 +64,28 @@ func (m *machine) intrinsic(name string, fn *ssa.Function, args []value, pos tok
 			return r, true
 		}
 	}
+	// strings.Repeat / bytes.Repeat with a concrete count: the result's size is an allocation like any other
+	// (checked against the budget before the host would build it); a negative count panics as in Go
+	if (name == "strings.Repeat" || name == "bytes.Repeat") && len(args) == 2 && !m.inInit {
+		if cnt, ok := args[1].(iv); ok && !cnt.sym() {
+			n := int64(cnt.c)
+			unit := int64(0)
+			switch a := args[0].(type) {
+			case string:
+				unit = int64(len(a))
+			case sstr:
+				unit = int64(len(a))
+			case slc:
+				unit = int64(a.ln)
+			}
+			if n < 0 {
+				m.fail("panic.explicit", pos)
+			}
+			if unit > 0 && n > int64(m.h.allocBudget)/unit {
+				m.fail("alloc.big", pos)
+			}
+		}
+	}
 	// host-native fast path for whitelisted pure functions on concrete arguments
 	if hf, ok := hostFuncs[name]; ok && !anySymArgs(args) {
 		if r, ok := m.hostCall(hf, fn, args); ok {
